@@ -17,6 +17,8 @@ const STATES: [Recipe; 10] = [Recipe::Layout, Recipe::Layout, Recipe::Full, Reci
 const W: [u32; NOPS] = [0, 2, 0, 1, 1, 0, 0, 3, 30, 22, 0, 0, 0, 0, 0, 0, 0, 0, 0, 30, 22, 0, 0, 6, 24];
 
 pub fn run(c: &mut Ctx) {
+    // this property rebuilds every state many times: very large sparse states are capped at 2^20 buckets
+    crate::states::set_huge_max_lg(20);
     c.run_scenarios(|c, idx, rng| {
         let pair = C14_PAIRS[(crate::util::mix(idx) % C14_PAIRS.len() as u64) as usize];
         for_pair!(pair, scenario(c, idx, rng));
